@@ -438,6 +438,15 @@ func specStay(v int) bool {
 //@   ensures [fields] result.Type == tokenType && result.Literal == literal && result.Start == token.Position{Line: startLine, Column: startColumn} && result.End == token.Position{Line: l.Line, Column: l.Column} && result.AfterNewline == l.hadNewlineBefore
 //@   ensures [trivia] sameStrs(result.LeadingComments, l.leadingComments)
 
+// A literal that ran into the end of the input is not a literal: the token is ILLEGAL, which no parse function accepts.
+//@ func (l *Lexer) literalToken(tokenType, value, startLine, startColumn)
+//@   props C12 C10 C14 C15 C07 C11
+//@   requires lexInv(l)
+//@   ensures [unterminated@C12] implies(l.position >= len(l.input), result.Type == token.ILLEGAL)
+//@   ensures [terminated@C12,C07] implies(l.position < len(l.input), result.Type == tokenType && result.Literal == value)
+//@   ensures [fields] result.Start == token.Position{Line: startLine, Column: startColumn} && result.End == token.Position{Line: l.Line, Column: l.Column} && result.AfterNewline == l.hadNewlineBefore
+//@   ensures [trivia] sameStrs(result.LeadingComments, l.leadingComments)
+
 //@ func (l *Lexer) readIdentifier()
 //@   props C10 C11
 //@   requires lexInv(l) && l.position < len(l.input)
@@ -588,7 +597,9 @@ func specStay(v int) bool {
 //@   ensures [num] implies(specDigit(old(l.CurrentChar)), result.Type == token.INT || result.Type == token.FLOAT)
 //@   ensures [op.type] implies(old(l.position) < len(l.input) && !specLetter(old(l.CurrentChar)) && !specDigit(old(l.CurrentChar)) && !isQuote(old(l.CurrentChar)), result.Type == specTokType(old(l.CurrentChar), byteAt(l.input, old(l.position)+1)))
 //@   ensures [op.text] implies(old(l.position) < len(l.input) && old(l.CurrentChar) < 128 && !specLetter(old(l.CurrentChar)) && !specDigit(old(l.CurrentChar)) && !isQuote(old(l.CurrentChar)), litEq(result.Literal, l.input, old(l.position), l.position))
-//@   ensures [quote.type] implies(isQuote(old(l.CurrentChar)), result.Type == ite(old(l.CurrentChar) == '`', token.RAW_STRING, token.STRING))
+//@   ensures [quote.type] implies(isQuote(old(l.CurrentChar)) && result.Type != token.ILLEGAL, result.Type == ite(old(l.CurrentChar) == '`', token.RAW_STRING, token.STRING))
+//@   ensures [literal.closed@C12] implies(isQuote(old(l.CurrentChar)) && result.Type != token.ILLEGAL, l.position-1 > old(l.position) && l.position-1 < len(l.input) && l.input[l.position-1] == old(l.CurrentChar))
+//@   ensures [literal.open@C12] implies(isQuote(old(l.CurrentChar)) && result.Type == token.ILLEGAL, l.position >= len(l.input))
 //@   ensures [nl] result.AfterNewline == l.hadNewlineBefore
 //@   ensures [trivia] sameStrs(result.LeadingComments, l.leadingComments)
 
